@@ -35,6 +35,118 @@ Theorem C01_threshold_predicates_gen : forall f v,
 Proof. intros. repeat split; gen_auto. Qed.
 Print Assumptions C01_threshold_predicates_gen.
 
+(* ================= second tier: the chain-list validators of commit/merkleroot/validate_observation.go =================
+   validateObservedMerkleRoots / OnRampMaxSeqNums / OffRampMaxSeqNums look at the chain selector of every entry only;
+   mapset sets are lists with membership (NewSet, Add, Contains).  Model: CommitConsensus.chains_ok and the
+   off-ramp clause of validate_obs. *)
+Lemma not_seen_cons : forall (x : N) seen l,
+  forallb (fun c => negb (memN c (x :: seen))) l =
+  negb (existsb (N.eqb x) l) && forallb (fun c => negb (memN c seen)) l.
+Proof.
+  intros x seen. induction l as [|c l IH]; [reflexivity|].
+  cbn [forallb existsb]. rewrite IH. unfold memN at 1. cbn [existsb]. fold (memN c seen).
+  rewrite (N.eqb_sym x c).
+  destruct (N.eqb c x), (memN c seen), (existsb (N.eqb x) l), (forallb (fun c0 => negb (memN c0 seen)) l); reflexivity.
+Qed.
+
+(* the loop of all three validators, with [sup] = None when support is not looked at *)
+Definition chains_loop_spec (sup : option (list N)) (l seen : list N) : res unit :=
+  if forallb (fun c => match sup with Some s => memN c s | None => true end) l &&
+     nodupb N.eqb l && forallb (fun c => negb (memN c seen)) l
+  then Ok tt else Err.
+
+Lemma gen_validate_roots_chains_loop_spec : forall l sup seen,
+  gen_validate_roots_chains_loop sup l seen = chains_loop_spec (Some sup) l seen.
+Proof.
+  unfold chains_loop_spec.
+  induction l as [|c l IH]; intros sup seen; gen_step gen_validate_roots_chains_loop; [reflexivity|].
+  rewrite IH, not_seen_cons. cbn [forallb nodupb].
+  destruct (memN c sup), (memN c seen), (existsb (N.eqb c) l), (forallb (fun c0 => memN c0 sup) l),
+    (nodupb N.eqb l), (forallb (fun c0 => negb (memN c0 seen)) l); reflexivity.
+Qed.
+
+Lemma gen_validate_onramp_chains_loop_spec : forall l sup seen,
+  gen_validate_onramp_chains_loop sup l seen = chains_loop_spec (Some sup) l seen.
+Proof.
+  unfold chains_loop_spec.
+  induction l as [|c l IH]; intros sup seen; gen_step gen_validate_onramp_chains_loop; [reflexivity|].
+  rewrite IH, not_seen_cons. cbn [forallb nodupb].
+  destruct (memN c sup), (memN c seen), (existsb (N.eqb c) l), (forallb (fun c0 => memN c0 sup) l),
+    (nodupb N.eqb l), (forallb (fun c0 => negb (memN c0 seen)) l); reflexivity.
+Qed.
+
+Lemma gen_validate_offramp_chains_loop_spec : forall l seen,
+  gen_validate_offramp_chains_loop l seen = chains_loop_spec None l seen.
+Proof.
+  unfold chains_loop_spec.
+  induction l as [|c l IH]; intros seen; gen_step gen_validate_offramp_chains_loop; [reflexivity|].
+  rewrite IH, not_seen_cons. cbn [forallb nodupb].
+  destruct (memN c seen), (existsb (N.eqb c) l), (forallb (fun _ : N => true) l),
+    (nodupb N.eqb l), (forallb (fun c0 => negb (memN c0 seen)) l); reflexivity.
+Qed.
+
+Lemma not_seen_nil : forall l : list N, forallb (fun c => negb (memN c [])) l = true.
+Proof. induction l as [|c l IH]; [reflexivity|]. cbn [forallb]. rewrite IH. reflexivity. Qed.
+
+Lemma forallb_true : forall l : list N, forallb (fun _ => true) l = true.
+Proof. induction l as [|c l IH]; [reflexivity|]. cbn [forallb]. exact IH. Qed.
+
+(* (a) generated = modelled, for every list of chains, observer and supported set *)
+Theorem gen_validate_roots_chains_eq : forall cs o sup,
+  gen_validate_roots_chains cs o sup = if chains_ok sup cs then Ok tt else Err.
+Proof.
+  intros cs o sup. unfold gen_validate_roots_chains, chains_ok. cbv zeta.
+  rewrite gen_validate_roots_chains_loop_spec. unfold chains_loop_spec. rewrite not_seen_nil, andb_true_r.
+  destruct cs; [reflexivity|]. cbn [length]. destruct (Z.eqb_spec (Z.of_nat (S (length cs))) 0); [lia|reflexivity].
+Qed.
+Print Assumptions gen_validate_roots_chains_eq.
+
+Theorem gen_validate_onramp_chains_eq : forall cs o sup,
+  gen_validate_onramp_chains cs o sup = if chains_ok sup cs then Ok tt else Err.
+Proof.
+  intros cs o sup. unfold gen_validate_onramp_chains, chains_ok. cbv zeta.
+  rewrite gen_validate_onramp_chains_loop_spec. unfold chains_loop_spec. rewrite not_seen_nil, andb_true_r.
+  destruct cs; [reflexivity|]. cbn [length]. destruct (Z.eqb_spec (Z.of_nat (S (length cs))) 0); [lia|reflexivity].
+Qed.
+Print Assumptions gen_validate_onramp_chains_eq.
+
+(* the off-ramp clause of validate_obs: nothing observed, or the observer writes the destination and no chain twice *)
+Theorem gen_validate_offramp_chains_eq : forall cs o sd,
+  gen_validate_offramp_chains cs o sd =
+  if (match cs with [] => true | _ => sd && nodupb N.eqb cs end) then Ok tt else Err.
+Proof.
+  intros cs o sd. unfold gen_validate_offramp_chains. cbv zeta.
+  rewrite gen_validate_offramp_chains_loop_spec. unfold chains_loop_spec. rewrite not_seen_nil, forallb_true, andb_true_r.
+  destruct cs; [reflexivity|]. cbn [length]. destruct (Z.eqb_spec (Z.of_nat (S (length cs))) 0); [lia|].
+  destruct sd; reflexivity.
+Qed.
+Print Assumptions gen_validate_offramp_chains_eq.
+
+(* (b) what is accepted, stated directly: every chain supported by the observer, no chain twice *)
+Theorem C01_validate_chains_gen : forall cs o sup,
+  gen_validate_roots_chains cs o sup = Ok tt <->
+  (forall c, In c cs -> In c sup) /\ NoDup cs.
+Proof.
+  intros cs o sup. rewrite gen_validate_roots_chains_eq. unfold chains_ok.
+  assert (Hm : forall (x : N) l, memN x l = true <-> In x l).
+  { intros x l. unfold memN. rewrite existsb_exists. split.
+    - intros [y [Hy E]]. apply N.eqb_eq in E. now subst.
+    - intros H. exists x. split; [exact H|apply N.eqb_refl]. }
+  assert (Hn : forall l : list N, nodupb N.eqb l = true <-> NoDup l).
+  { induction l as [|x l IH]; cbn [nodupb]; [split; [constructor|reflexivity]|].
+    rewrite andb_true_iff, negb_true_iff, IH. fold (memN x l). split.
+    - intros [H1 H2]. constructor; [|exact H2]. intros Hin. apply Hm in Hin. congruence.
+    - intros H. inversion H; subst. split; [|assumption]. destruct (memN x l) eqn:E; [|reflexivity].
+      apply Hm in E. contradiction. }
+  destruct (forallb (fun c => memN c sup) cs && nodupb N.eqb cs) eqn:E.
+  - apply andb_true_iff in E. destruct E as [E1 E2]. split; [intros _|reflexivity]. split; [|now apply Hn].
+    intros c Hc. rewrite forallb_forall in E1. apply Hm, E1, Hc.
+  - split; [discriminate|]. intros [H1 H2]. exfalso.
+    assert (forallb (fun c => memN c sup) cs = true) by (apply forallb_forall; intros c Hc; apply Hm, H1, Hc).
+    assert (nodupb N.eqb cs = true) by now apply Hn. rewrite H, H0 in E. discriminate.
+Qed.
+Print Assumptions C01_validate_chains_gen.
+
 Example C01_gen_nonvacuous :
   gen_two_f_plus_1 1 = 3%N /\ gen_f_plus_1 2 = 3%N /\ gen_f_plus_1 (-1) = 0%N /\
   gen_lt_two_f_plus_one 1 2 = true /\ gen_lt_two_f_plus_one 1 3 = false /\ gen_gte_f_plus_one 1 2 = true.
